@@ -57,7 +57,12 @@ def decompress():
 
             def on_next(i):
                 try:
-                    data = decompressor.decompress(i)
+                    if len(i) == 0:
+                        # an empty chunk carries nothing, and the decompressobj
+                        # rejects any call once the frame has ended
+                        data = b''
+                    else:
+                        data = decompressor.decompress(i)
                     observer.on_next(data)
                 except Exception as e:
                     observer.on_error(e)
